@@ -97,6 +97,7 @@ type c05Event struct {
 	Q         string            `json:"q"`
 	Scoped    bool              `json:"scoped"`
 	Fwd       string            `json:"fwd"` // subnet received by the upstream, "none" if not called, "noecs" if no option
+	FwdAll    []string          `json:"fwdall"` // every ECS option the upstream received, in order
 	FwdScope  int               `json:"fwdscope"`
 	Rcode     int               `json:"rcode"`
 	ExpRc     int               `json:"exprc"` // rcode the upstream gives this name
@@ -134,6 +135,7 @@ type c05World struct {
 	// through the server's response normalisation
 	sockAddr string
 	lastFwd  string
+	fwdAll  []string
 	lastSc   int
 	called   bool
 	// answers are TXT records "q@subnet": recoverable from the response
@@ -162,7 +164,7 @@ func c05NewWorld(t *testing.T, ns string) *c05World {
 	}
 	upstream := dnsserver.HandlerFunc(func(ctx context.Context, rw dnsserver.ResponseWriter, req *dns.Msg) error {
 		w.called = true
-		w.lastFwd, w.lastSc = "noecs", 0
+		w.lastFwd, w.lastSc, w.fwdAll = "noecs", 0, nil
 		name := strings.ToLower(req.Question[0].Name)
 		scoped := strings.HasPrefix(name, "s.") || strings.HasSuffix(name, c05AndroidSuffix)
 		resp := new(dns.Msg).SetReply(req)
@@ -177,6 +179,7 @@ func c05NewWorld(t *testing.T, ns string) *c05World {
 					if s.Family == 2 {
 						w.lastFwd = fmt.Sprintf("%s/%d", ip, s.SourceNetmask)
 					}
+					w.fwdAll = append(w.fwdAll, w.lastFwd)
 					w.lastSc = int(s.SourceScope)
 					scope := uint8(0)
 					if scoped && s.SourceNetmask > 0 {
@@ -302,6 +305,8 @@ type c05Query struct {
 	// one more EDNS option of the kind the server itself answers next to the client-subnet option
 	sock  bool
 	extra string
+	// double: a second ECS option follows the first (valid or zero-length) one
+	double bool
 }
 
 func (w *c05World) ask(t *testing.T, q c05Query, id int, beh int) c05Event {
@@ -312,7 +317,7 @@ func (w *c05World) ask(t *testing.T, q c05Query, id int, beh int) c05Event {
 	ev := c05Event{Ev: "Query", ID: id, Beh: beh, Opt: q.opt, OptSub: "none", OptLoc: "unknown", OptFam: "none",
 		Client: c05Client{Addr: q.client.String(), Fam: c05Fam(q.client), Loc: c05Loc(q.client)},
 		Q:      c05Norm(q.name), Scoped: strings.HasPrefix(c05Norm(q.name), "s.") || strings.HasSuffix(c05Norm(q.name), c05AndroidSuffix),
-		ExpRc: c05ExpRc(strings.ToLower(q.name)), Fwd: "none", Content: "none",
+		ExpRc: c05ExpRc(strings.ToLower(q.name)), Fwd: "none", FwdAll: []string{}, Content: "none",
 		EchoAddr: "none", OptAddr: "none", Geo: map[string]string{}}
 	if q.opt == "absent" && id%3 == 0 {
 		// EDNS with the DO bit but without a client-subnet option: still "no ECS option in the query"
@@ -349,6 +354,13 @@ func (w *c05World) ask(t *testing.T, q c05Query, id int, beh int) c05Event {
 			}
 		}
 		o.Option = append(o.Option, e)
+		if q.double {
+			// a SECOND client-subnet option (nothing in the protocol allows two): the client's own address.
+			// Whatever the server makes of such a query, that subnet is not for the upstream to see
+			o.Option = append(o.Option, &dns.EDNS0_SUBNET{Code: dns.EDNS0SUBNET, Family: 1, SourceNetmask: 32,
+				Address: net.IPv4(203, 0, 113, 99).To4()})
+			ev.ExpRc = 99
+		}
 		ev.OptSub = q.sub.String()
 		ev.OptAddr, ev.OptLen = q.sub.Addr().String(), q.sub.Bits()
 		ev.OptLoc = c05Loc(q.sub.Addr())
@@ -410,6 +422,10 @@ func (w *c05World) ask(t *testing.T, q c05Query, id int, beh int) c05Event {
 	_ = w.h.ServeDNS(ctx, rw, req)
 	if w.called {
 		ev.Fwd, ev.FwdScope = w.lastFwd, w.lastSc
+		ev.FwdAll = append(ev.FwdAll, w.fwdAll...)
+		if len(w.fwdAll) > 0 {
+			ev.Fwd = w.fwdAll[0]
+		}
 	}
 	c05Observe(&ev, req, rw.msg)
 	return ev
@@ -549,8 +565,11 @@ func TestVerifC05(t *testing.T) {
 			default:
 				q.opt, q.sub, q.bad = "malformed", subs[rng.Intn(len(subs))], rng.Intn(4)
 			}
+			if (q.opt == "valid" || q.opt == "zero") && rng.Intn(5) == 0 {
+				q.double = true
+			}
 			// (a malformed option cannot be put on the wire faithfully by the client library's packer)
-			if rng.Intn(4) == 0 && q.opt != "malformed" {
+			if rng.Intn(4) == 0 && q.opt != "malformed" && !q.double {
 				q.sock, q.extra = true, []string{"none", "nsid", "expire", "cookie", "keepalive"}[rng.Intn(5)]
 			}
 			id++
